@@ -85,6 +85,7 @@ class HistoryRunner:
 		# mtime (ns) history per module and the mtime whose tree the cache can still hold (the one of the latest run that touched the tree cache)
 		self.stamps: dict[str, list[int]] = {}
 		self.cached_stamp: dict[str, int] = {}
+		self.context_note: dict[str, Any] = {}
 
 	# -- bookkeeping helpers
 
@@ -93,6 +94,8 @@ class HistoryRunner:
 		t[key] = t.get(key, 0) + n
 
 	def violation(self, vclass: str, op_index: int, detail: Any, known: str | None = None, **kw: Any) -> None:
+		if self.context_note and isinstance(detail, dict):
+			detail = {**detail, **self.context_note}
 		self.violations.append({'class': vclass, 'op_index': op_index, 'detail': detail, 'known': known, **kw})
 
 	def account_trace(self, rec: dict[str, Any], fault: dict[str, Any] | None) -> None:
@@ -258,6 +261,45 @@ class HistoryRunner:
 			else:
 				self.bump('probes', 'truncate: no such cache file')
 			self.kinds_seq.append('truncate')
+		elif kind == 'sweep':
+			# structure-aware truncation: every record boundary (just before / just after each newline) of one cache file, each from the same
+			# snapshot. A single-document file has no such boundary and costs nothing; a record-structured one is cut where a prefix may look complete.
+			files = [f for f in self.proj.cache_files() if file_class(f) == op.get('cls')]
+			if op.get('m'):
+				files = [f for f in files if (module_of_cache_file(f) or ('',))[0] == op['m']]
+			bounds: list[int] = []
+			if files:
+				victim = files[min(len(files) - 1, int(op.get('pick', 0.0) * len(files)))]
+				full = self.proj.sc.path(victim)
+				data = open(full, 'rb').read()
+				for k, b in enumerate(data):
+					if b == 10:
+						bounds += [x for x in (k, k + 1) if 0 < x < len(data)]
+				bounds = sorted(set(bounds))
+				cap = op.get('cap', 40)
+				if len(bounds) > cap:
+					# the tail always (the last records are the cheapest to lose unnoticed), the head, and an even spread in between
+					mid = bounds[4:-12]
+					bounds = sorted(set(bounds[:4] + bounds[-12:] + [mid[int(j * len(mid) / max(1, cap - 16))] for j in range(max(0, cap - 16)) if mid]))
+			self.bump('probes', 'sweep: record boundaries found' if bounds else 'sweep: single-document file (no record boundary)')
+			if bounds:
+				snap = self.proj.sc.snapshot()
+				keep = (set(self.tainted), {k: dict(v) for k, v in self.written.items()})
+				for off in bounds:
+					self.proj.sc.restore(snap)
+					self.tainted, self.written = set(keep[0]), {k: dict(v) for k, v in keep[1].items()}
+					with open(full, 'wb') as f:
+						f.write(data[:off])
+					self.tainted.add(victim)
+					self.bump('faults_fired', 'torn-write(%s file cut at a record boundary)' % op.get('cls'))
+					self.context_note = {'truncated': victim, 'offset': off, 'size': len(data)}
+					self.log.append(['sweep', file_class(victim), off, len(data)])
+					self.run_once(i, {'op': 'run', 'enabled': True}, None)
+				self.context_note = {}
+				self.proj.sc.restore(snap)
+				self.tainted, self.written = keep
+			self.changed_since_obs = True
+			self.kinds_seq.append('sweep')
 		elif kind == 'run':
 			self.do_run(i, op)
 		else:
